@@ -4,6 +4,8 @@ import PsyVerif.Lemmas.MiniFSem
 import PsyVerif.Lemmas.OMPFine
 import PsyVerif.Lemmas.OMPInfer
 import PsyVerif.Lemmas.OMPStatic
+import PsyVerif.Model.OMPPairs
+import PsyVerif.Lemmas.OMPPairs
 /-! # C09 — OpenMP-parallelised loops compute the serial result on any schedule
 
 * `C09_partial`: for every loop, all clause lists, every store, every trip count and EVERY
@@ -18,6 +20,12 @@ import PsyVerif.Lemmas.OMPStatic
   checks (`staticIndepB`: distance 0 in the parallel variable for every written array, written
   scalars privatised; `staticUncondB`: definite assignment of privatised variables) imply the two
   hypotheses at every store, so for this class nothing is evaluated per input.
+* `C09_pair_loop_complete`, `C09_pair_loop_reports_failing_pair`, `C09_pairs_indep`, `C09_pairs_static`, `C09_validate_pairs_indep`,
+  `C09_untested_pairs_admitted` + three `C09_skip_*_counterexample`: the array part of `validate` is the
+  double loop over ALL ordered pairs (write, other access of the same array) of
+  `_array_access_parallelisable`; it is complete; on the calibrated fragment acceptance implies
+  `IterIndep` at every store; leaving the pairs whose other access stands in an EARLIER statement,
+  in a LATER statement, or the self pair untested admits a racy program in each case.
 * `C09_infer_sharing_spec`: what `infer_sharing_attributes` (`inferSharing`) guarantees.
 * The pinned code violates the full statement: `conditional_private_counterexample`,
   `written_once_shared_counterexample` (both refute `C09_statement`), `intdiv_counterexample`.
@@ -552,6 +560,158 @@ example : (inferSharing (.loop 0 (.lit 0) (.lit 1) (.lit 1)
 /-- a scalar read in the loop bounds and written in the body is firstprivate -/
 example : (inferSharing (.loop 0 (.lit 0) (.var 1) (.lit 1)
     (.seq (.assign 1 (.lit 3)) (.store1 3 (.var 0) (.var 1))))).fpriv = [1] := by decide
+
+
+/-! ## the array part of `validate`: the pair loop of `_array_access_parallelisable` -/
+
+/-- **The pair loop is complete**: it reports nothing iff EVERY ordered pair (write access `w`,
+access `o` of the same variable — read or write, `w` itself included, in whatever statement `o`
+stands relative to `w`) passes the test. -/
+theorem C09_pair_loop_complete (test : SAcc → SAcc → Bool) (accs : List SAcc) :
+    firstFail test accs = none ↔
+      ∀ w ∈ accs, w.write = true → ∀ o ∈ accs, o.arr = w.arr → test w o = true := by
+  simp only [firstFail, firstFailWith_none]
+  constructor
+  · intro h w hw hwr o ho ha
+    rcases h w hw hwr o ho ha with h' | h'
+    · cases h'
+    · exact h'
+  · intro h w hw hwr o ho ha
+    exact Or.inr (h w hw hwr o ho ha)
+
+/-- … and a reported pair is a genuine failing pair of the access sequence. -/
+theorem C09_pair_loop_reports_failing_pair (test : SAcc → SAcc → Bool) (accs : List SAcc) (w o : SAcc)
+    (h : firstFail test accs = some (w, o)) :
+    w ∈ accs ∧ w.write = true ∧ o ∈ accs ∧ o.arr = w.arr ∧ test w o = false := by
+  obtain ⟨h1, h2, h3, h4, _, h6⟩ := firstFailWith_some h
+  exact ⟨h1, h2, h3, h4, h6⟩
+
+/-- A loop that leaves a class `skip` of pairs untested accepts exactly when every failing pair is
+in that class: each untested failing pair is admitted. -/
+theorem C09_untested_pairs_admitted (skip test : SAcc → SAcc → Bool) (accs : List SAcc) :
+    firstFailWith skip test accs = none ↔
+      ∀ w ∈ accs, w.write = true → ∀ o ∈ accs, o.arr = w.arr → test w o = false → skip w o = true := by
+  rw [firstFailWith_none]
+  constructor
+  · intro h w hw hwr o ho ha ht
+    rcases h w hw hwr o ho ha with h' | h'
+    · exact h'
+    · rw [ht] at h'; cases h'
+  · intro h w hw hwr o ho ha
+    cases ht : test w o with
+    | true => exact Or.inr rfl
+    | false => exact Or.inl (h w hw hwr o ho ha ht)
+
+/-- **Acceptance by the pair loop ⇒ `IterIndep` at every store** (fragment: subscripts that are
+literals or `x ± c`; any other subscript makes the pair fail).  `pairsIndepB`: the parallel variable
+is never assigned, every assigned scalar and inner loop variable is privatised, and every pair
+(write, other) of the shared accesses of the body passes `pairTest` — the model of
+`_is_loop_carried_dependency`.  Strictly more general than `staticIndepB` (see the example below). -/
+theorem C09_pairs_indep (P : ParDo) (h : pairsIndepB P = true) : ∀ σ, IterIndep P σ :=
+  iterIndep_of_pairs P h
+
+/-- … hence the serial result on every schedule, without evaluating anything on the input. -/
+theorem C09_pairs_static (P : ParDo) (hi : pairsIndepB P = true) (hu : staticUncondB P = true) (σ : Store)
+    (sched : List (Nat × Nat)) (hv : ValidSched (P.trips σ) sched) :
+    ∃ τ, execOMP P sched σ = some τ ∧ SharedEq P.privs τ (exec P.serial σ) :=
+  C09_partial P σ (C09_pairs_indep P hi σ) (C09_static_uncond P hu σ) sched hv
+
+/-- **From the model of `validate` to the theorem's hypothesis.**  If the array pair loop of
+`validateArrays` (the accesses of the whole loop, bounds included, restricted to the variables used
+with subscripts — what `_array_access_parallelisable` sees) reports nothing, and the scalars the
+body assigns are privatised by the directive's clauses, then `pairsIndepB` holds, hence
+`IterIndep` at every store. -/
+theorem C09_validate_pairs_indep (P : ParDo) (hs : scalarsOK P.v P.privs P.body = true)
+    (hv : validateArrays P.v P.lo P.hi P.step P.body = true) : ∀ σ, IterIndep P σ :=
+  C09_pairs_indep P (pairsIndepB_of_validate P hs hv)
+
+/-- non-vacuity: `goodLoop` satisfies both hypotheses -/
+example : scalarsOK goodLoop.v goodLoop.privs goodLoop.body = true ∧
+    validateArrays goodLoop.v goodLoop.lo goodLoop.hi goodLoop.step goodLoop.body = true := by decide
+
+/-! ### every class of untested pairs admits a racy program -/
+
+/-- pairs whose other access belongs to an EARLIER statement than the write -/
+def skipEarlier (w o : SAcc) : Bool := decide (o.pos < w.pos)
+/-- pairs whose other access belongs to a LATER statement than the write -/
+def skipLater (w o : SAcc) : Bool := decide (w.pos < o.pos)
+/-- the pair of a write with itself -/
+def skipSelf (w o : SAcc) : Bool := w == o
+
+/-- `b(i) = a(i-1); a(i) = c(i) + 1` for i = 1, 2  (ids: i=0, a=1, b=2, c=3): the read of `a(i-1)`
+stands in an earlier statement than the write of `a(i)` -/
+def recEarlier : ParDo :=
+  annotate 0 (.lit 1) (.lit 2) (.lit 1)
+    (.seq (.store1 2 (.var 0) (.idx1 1 (.bin .sub (.var 0) (.lit 1))))
+          (.store1 1 (.var 0) (.bin .add (.idx1 3 (.var 0)) (.lit 1))))
+
+/-- the same two statements in the other order -/
+def recLater : ParDo :=
+  annotate 0 (.lit 1) (.lit 2) (.lit 1)
+    (.seq (.store1 1 (.var 0) (.bin .add (.idx1 3 (.var 0)) (.lit 1)))
+          (.store1 2 (.var 0) (.idx1 1 (.bin .sub (.var 0) (.lit 1)))))
+
+/-- `a(1) = c(i)`: every iteration writes the same element -/
+def sameElem : ParDo := annotate 0 (.lit 1) (.lit 2) (.lit 1) (.store1 1 (.lit 1) (.idx1 3 (.var 0)))
+
+/-- a(0) = 7, c(1) = 10, c(2) = 20 -/
+def recStore : Store := storeOf [((1, 0, 0), 7), ((3, 1, 0), 10), ((3, 2, 0), 20)]
+
+/-- Leaving the (write, EARLIER other) pairs untested accepts the first-order recurrence spelt over
+two statements; the deployed loop refuses it; the iterations are not independent and running
+iteration 1 (i = 2) before iteration 0 stores the stale `a(1) = 0` into `b(2)` where the serial
+loop stores `11`. -/
+theorem C09_skip_earlier_counterexample :
+    pairsIndepSkipB skipEarlier recEarlier = true ∧ pairsIndepB recEarlier = false ∧
+    ¬ IterIndep recEarlier recStore ∧
+    (execOMP recEarlier [(0, 1), (1, 0)] recStore).map (fun τ => τ.get (2, 2, 0)) = some 0 ∧
+    (exec recEarlier.serial recStore).get (2, 2, 0) = 11 := by
+  decide
+
+/-- likewise for the (write, LATER other) pairs -/
+theorem C09_skip_later_counterexample :
+    pairsIndepSkipB skipLater recLater = true ∧ pairsIndepB recLater = false ∧
+    ¬ IterIndep recLater recStore ∧
+    (execOMP recLater [(0, 1), (1, 0)] recStore).map (fun τ => τ.get (2, 2, 0)) = some 0 ∧
+    (exec recLater.serial recStore).get (2, 2, 0) = 11 := by
+  decide
+
+/-- … and for the pair of a write with itself (write-write race on one element) -/
+theorem C09_skip_self_counterexample :
+    pairsIndepSkipB skipSelf sameElem = true ∧ pairsIndepB sameElem = false ∧
+    ¬ IterIndep sameElem recStore ∧
+    (execOMP sameElem [(0, 1), (1, 0)] recStore).map (fun τ => τ.get (1, 1, 0)) = some 10 ∧
+    (exec sameElem.serial recStore).get (1, 1, 0) = 20 := by
+  decide
+
+/-! ### non-vacuity of the pair-loop theorems -/
+
+/-- `goodLoop` (a temporary, two arrays) is accepted by the pair loop and by definite assignment -/
+example : pairsIndepB goodLoop = true ∧ staticUncondB goodLoop = true ∧ inPairFragment goodLoop = true := by decide
+/-- the same statements as `recEarlier` at distance 0 are accepted in both orders -/
+example : pairsIndepB (annotate 0 (.lit 1) (.lit 2) (.lit 1)
+    (.seq (.store1 2 (.var 0) (.idx1 1 (.var 0))) (.store1 1 (.var 0) (.bin .add (.idx1 3 (.var 0)) (.lit 1))))) = true ∧
+  pairsIndepB (annotate 0 (.lit 1) (.lit 2) (.lit 1)
+    (.seq (.store1 1 (.var 0) (.bin .add (.idx1 3 (.var 0)) (.lit 1))) (.store1 2 (.var 0) (.idx1 1 (.var 0))))) = true := by
+  decide
+/-- `do i; do j = 1, 2; m(i, i) = m(i, j) + m(j, i)` (m=5, j=4): every pair with the write is
+separated at SOME position (not the same one), so the pair loop accepts while the one-position
+check `staticIndepB` does not -/
+example :
+    let P := annotate 0 (.lit 1) (.lit 3) (.lit 1)
+      (.loop 4 (.lit 1) (.lit 2) (.lit 1)
+        (.store2 5 (.var 0) (.var 0) (.bin .add (.idx2 5 (.var 0) (.var 4)) (.idx2 5 (.var 4) (.var 0)))))
+    pairsIndepB P = true ∧ staticIndepB P = false := by decide
+/-- the pair loop on an abstract access list: two writes and a read of one array, the test fails
+only on (second write, read) — that pair is reported -/
+example : firstFail (fun w o => !(w.pos == 2 && o.pos == 1))
+    [⟨7, true, [], 0⟩, ⟨7, false, [], 1⟩, ⟨7, true, [], 2⟩, ⟨8, true, [], 3⟩] =
+    some (⟨7, true, [], 2⟩, ⟨7, false, [], 1⟩) := by decide
+/-- `validateModel` (scalar rule + pair loop over the arrays): the recurrence is refused in both
+statement orders, the distance-0 body is accepted -/
+example : validateModel 0 (.lit 1) (.lit 2) (.lit 1) recEarlier.body = false ∧
+    validateModel 0 (.lit 1) (.lit 2) (.lit 1) recLater.body = false ∧
+    validateModel 0 (.lit 0) (.lit 2) (.lit 1) goodBody = true := by decide
 
 /-! ### the fine-grained semantics, evaluated -/
 
